@@ -347,8 +347,11 @@ class Runner:
                 "spec models validated against google.protobuf at every path witness (labels oracle:*)",
             ],
         }
-        os.makedirs(os.path.join(ROOT, "evidence"), exist_ok=True)
-        with open(os.path.join(ROOT, "evidence", "%s.json" % self.prop), "w") as f:
+        evdir = os.path.join(ROOT, "evidence")
+        if os.path.realpath(repo_root()) != "/repo":
+            evdir = os.environ.get("VERIF_EVIDENCE_DIR", "/tmp/vf-scratch-evidence")  # runs against a scratch copy never touch the committed evidence
+        os.makedirs(evdir, exist_ok=True)
+        with open(os.path.join(evdir, "%s.json" % self.prop), "w") as f:
             json.dump(ev, f, indent=1, sort_keys=True)
         print(
             "%s %s: units=%d paths=%d (ok=%d infeasible=%d cut=%d inconclusive=%d unexplored-prefixes=%d) queries=%d assertions=%d "
